@@ -7,7 +7,7 @@
 (* The model states which inputs MUST parse (and to which key: the embedded one),  *)
 (* which MUST be refused, and which may go either way (lenient encodings that a    *)
 (* DER reader may or may not tolerate); parsing is total in every case.            *)
-EXTENDS Integers, Sequences, FiniteSets, TLC
+EXTENDS Integers, Sequences, SequencesExt, FiniteSets, TLC
 CONSTANTS MaxMut
 
 Kinds == {"xpriv", "edpriv", "xpub", "edpub"}
@@ -21,6 +21,9 @@ Must == [ none            |-> "accept",
           oid_swapped     |-> "accept",    \* X25519 <-> Ed25519 OID: a well-formed key of the other kind
           key_tag         |-> "reject",    \* OCTET STRING / BIT STRING tag replaced
           inner_tag       |-> "reject",    \* (private) inner OCTET STRING tag replaced
+          inner_tag_cons  |-> "reject",    \* (private) inner tag 0x24: same tag number, "constructed" bit set
+          inner_tag_class |-> "reject",    \* (private) inner tag 0x84: same tag number, context-specific class
+          key_tag_cons    |-> "either",    \* outer OCTET/BIT STRING with the "constructed" bit (BER, not DER)
           inner_len       |-> "reject",    \* (private) inner length 31 with 31 bytes, all lengths consistent
           key_short       |-> "reject",    \* 31 key bytes, all lengths consistent
           key_long        |-> "reject",    \* 33 key bytes, all lengths consistent
@@ -36,8 +39,11 @@ Must == [ none            |-> "accept",
           pem_no_end      |-> "reject",    \* END line missing
           pem_bad_b64     |-> "reject" ]   \* a non-base64 character in the body
 Muts == DOMAIN Must
+\* a fixed order on mutation names (TLC does not compare strings)
+MutSeq == SetToSeq(Muts)
+Rank(m) == CHOOSE i \in 1..Len(MutSeq) : MutSeq[i] = m
 Applicable(kind, arm, m) ==
-  /\ (m \in {"inner_tag", "inner_len", "version_one"} => kind \in {"xpriv", "edpriv"})
+  /\ (m \in {"inner_tag", "inner_tag_cons", "inner_tag_class", "inner_len", "version_one"} => kind \in {"xpriv", "edpriv"})
   /\ (m = "bit_unused" => kind \in {"xpub", "edpub"})
   /\ (m \in {"pem_label", "pem_no_end", "pem_bad_b64"} => arm # "der")
 
@@ -48,7 +54,7 @@ vars == <<kind, arm, muts, done>>
 Init == kind \in Kinds /\ arm \in Armours /\ muts = <<>> /\ done = FALSE
 Mutate(m) == /\ ~done /\ Len(muts) < MaxMut /\ m # "none" /\ Applicable(kind, arm, m)
              /\ \A i \in 1..Len(muts) : muts[i] # m
-             /\ (Len(muts) > 0 => muts[Len(muts)] < m)
+             /\ (Len(muts) > 0 => Rank(muts[Len(muts)]) < Rank(m))
              /\ muts' = Append(muts, m) /\ UNCHANGED <<kind, arm, done>>
 Parse == ~done /\ done' = TRUE /\ UNCHANGED <<kind, arm, muts>>
 Next == (\E m \in Muts : Mutate(m)) \/ Parse
